@@ -228,7 +228,13 @@ def symbol_round_trip(ctx, script):
     case = {'script': script, 'op': 'symbols'}
     ctx.evaluation(('symbols', script), nontrivial=len(symbols) > 0, sample=case)
     try:
-        back = tools.dataframe_to_symbols(tools.symbols_to_dataframe(symbols))
+        symbols_image = list(symbols)
+        table = tools.symbols_to_dataframe(symbols)
+        table_image = table.copy(deep=True)
+        back = tools.dataframe_to_symbols(table)
+        if list(symbols) != symbols_image or not table.equals(table_image):
+            ctx.violation('argument-mutated', f'{script!r}: symbols_to_dataframe / dataframe_to_symbols changed the object they were given', {'script': script})
+            return
     except Exception as e:
         if len(symbols) == 0:
             ctx.count('empty_symbol_list_round_trip_raises')
